@@ -263,6 +263,8 @@ fn run_part(run: &mut Run) {
     match run.part.as_str() {
         "shapes" => {
             run.sweep_vec("shapes", "shape catalogue x S(W) x offsets", || with_offsets(shape_catalogue(false, (-2, -3)), &styles(tier.pick(4, 6)), &ds), check_prim);
+            run.sweep_vec("shapes-far-offsets", "shape catalogue x S(2) x offsets of about +-1000 px (each moves the shape into a different quadrant far from the origin)", || with_offsets(shape_catalogue(false, (-2, -3)), &styles(2), &[(1000, -1000), (-1003, 997), (-500, -500), (800, 600)]), check_prim);
+            run.sweep_vec("display-scale", "display-scale catalogue (every primitive kind, 200..=320 px plus one 1024 px shape, at three positions) x 6 styles (widths 0, 1, 3, 20, 64, 300) x offsets (1,-1) and (-1000,1000)", || with_offsets(display_scale_catalogue(), &display_scale_styles(), &[(1, -1), (-1000, 1000)]), check_prim);
         }
         "angles-fixed-point" => {
             run.sweep_vec("arcs-sectors-fixed-point", "arcs and sectors of the catalogue x S(4) x offsets in the fixed_point build", || with_offsets(angle_shapes((-2, -3)), &styles(4), &ds), check_prim);
